@@ -103,6 +103,7 @@ class Sim13:
         self.marks: list[dict] = []
         self.guard_failures: list[dict] = []
         self.writes: list[dict] = []
+        self.refused: list[dict] = []          # conditional PATCHes of the peering object answered 409
         self.toggle_set: dict[int, Any] = {}       # id(toggle) -> (toggle, set)
         self.sets: dict[int, dict] = {}            # id(set) -> {"inc":, "fn":}
         self.dead: set[int] = set()
@@ -174,12 +175,23 @@ class Sim13:
                 await asyncio.sleep(hdelay)
             r["t_end"] = sim.now()
 
+        # `handler_ignores_cancel: true`: the update handler swallows every cancellation until its time is over (an
+        # uncooperative handler: what a graceful stop does when the handling does not stop within queueing.exit_timeout)
+        shielded = bool(self.sc.get("handler_ignores_cancel"))
+
         @kopf.on.update("kopfexamples", id="u", registry=reg)
         async def u(**kwargs: Any) -> None:
             r = rec_of("update", "u", kwargs)
             if r is None:
                 raise asyncio.CancelledError()
-            if hdelay:
+            if hdelay and shielded:
+                t_end = sim.now() + hdelay
+                while sim.now() < t_end and sim.inc() not in sim.dead:
+                    try:
+                        await asyncio.sleep(t_end - sim.now())
+                    except asyncio.CancelledError:
+                        r["cancels_ignored"] = r.get("cancels_ignored", 0) + 1
+            elif hdelay:
                 await asyncio.sleep(hdelay)
             r["t_end"] = sim.now()
 
@@ -395,7 +407,7 @@ class Sim13:
         snap = copy.deepcopy
         return {"t_end": t_end, "incs": incs, "toggles": snap(self.toggles), "pcalls": snap([{k: v for k, v in p.items() if not k.startswith("_")} for p in self.pcalls]),
                 "ka": snap(self.ka), "touches": snap(self.touches), "calls": snap(self.calls), "cycles": snap(self.cycles), "marks": snap(self.marks),
-                "peering_history": phist, "kex_history": khist, "requests": reqs, "guard_failures": snap(self.guard_failures), "writes": snap(self.writes)}
+                "peering_history": phist, "kex_history": khist, "requests": reqs, "guard_failures": snap(self.guard_failures), "writes": snap(self.writes), "refused": snap(self.refused)}
 
 
 # =================================================================================================
@@ -634,18 +646,23 @@ def installed(sim: Sim13) -> Iterator[None]:
         is_peer_patch = method == "PATCH" and "/clusterkopfpeerings/" in path
         before = copy.deepcopy((sim.cluster.objects.get(pk) or {}).get("status")) if is_peer_patch else None
         payload0 = a[0] if a else k.get("payload")
-        if is_peer_patch and isinstance(payload0, dict) and isinstance(payload0.get("metadata"), dict) \
-                and payload0["metadata"].get("resourceVersion") is not None and pk in sim.cluster.objects \
-                and str(payload0["metadata"]["resourceVersion"]) != str(sim.cluster.objects[pk]["metadata"].get("resourceVersion")):
-            # optimistic concurrency of the API server: a PATCH that names another resourceVersion is refused
-            req["precondition_failed"] = True
-            return fakeapi.FakeResponse(409, fakeapi._status(409, "Conflict", "the object has been modified"))
+        rv_before = str((sim.cluster.objects.get(pk) or {}).get("metadata", {}).get("resourceVersion")) if is_peer_patch else None
+        rv_sent = None
+        if is_peer_patch and isinstance(payload0, dict) and isinstance(payload0.get("metadata"), dict):
+            rv_sent = payload0["metadata"].get("resourceVersion")
+        # (optimistic concurrency - a PATCH that names another resourceVersion is refused with 409 - is the fake API's own)
         resp = o_serve(self, req, method, path, query, *a, **k)
         if is_peer_patch and resp.status == 200:
-            payload = a[0] if a else k.get("payload")
             sim.writes.append({"t": sim.now(), "t_issue": req["t"], "who": self.identity,
-                               "patch": copy.deepcopy((payload or {}).get("status")) if isinstance(payload, dict) else None,
+                               "patch": copy.deepcopy((payload0 or {}).get("status")) if isinstance(payload0, dict) else None,
+                               "rv_sent": None if rv_sent is None else str(rv_sent), "rv_before": rv_before,
                                "before": before, "after": copy.deepcopy((sim.cluster.objects.get(pk) or {}).get("status"))})
+        elif is_peer_patch and resp.status == 409:
+            # a conditional clean() that came too late: nothing applied
+            sim.refused.append({"t": sim.now(), "t_issue": req["t"], "who": self.identity,
+                                "patch": copy.deepcopy((payload0 or {}).get("status")) if isinstance(payload0, dict) else None,
+                                "rv_sent": None if rv_sent is None else str(rv_sent), "rv_before": rv_before,
+                                "before": before, "after": copy.deepcopy((sim.cluster.objects.get(pk) or {}).get("status"))})
         if method == "GET" and "/kopfexamples" in path and resp.watch is None and isinstance(resp.payload, dict) and "items" in resp.payload:
             req["listed"] = [[it["metadata"].get("name"), it["metadata"].get("resourceVersion")] for it in resp.payload["items"]]
         return resp
